@@ -815,7 +815,8 @@ func reachesDurationReturn(v ssa.Value) bool {
 		}
 		return false
 	}
-	return rec(v, false)
+	// a product computed in time.Duration already is one
+	return rec(v, isNamedType(v.Type(), "time", "Duration"))
 }
 
 // findOverflowGuard finds `MaxInt64 / mult < hits` (or `hits > MaxInt64/mult`).
